@@ -100,6 +100,57 @@ def frag_keywords(R):
     return f
 
 
+PANIC_RE = re.compile(r"\.unwrap\(\)|\.expect\(|\bpanic!\(|\bunreachable!\(|\btodo!\(|\bunimplemented!\(|(?<![_a-z])assert!\(|\bassert_eq!\(|\bassert_ne!\(")
+
+
+def panic_sites(R, repo, used):
+    """every place in non-test code of the two crates where the program can abort on purpose: (file, function, kind, text, hash)"""
+    import os
+    out = []
+    for crate in ("slicec/src", "slice-codec/src"):
+        for root, _, files in sorted(os.walk(os.path.join(repo, crate))):
+            for fn in sorted(files):
+                if not fn.endswith(".rs") or fn == "tests.rs":
+                    continue
+                rel = os.path.relpath(os.path.join(root, fn), repo)
+                src = R.read(repo, rel, used)
+                cut = src.find("#[cfg(test)]")
+                if cut >= 0:
+                    src = src[:cut]
+                cur_fn, counts = "<top>", {}
+                for line in R.strip_comments(src).split("\n"):
+                    m = re.search(r"\bfn\s+(\w+)", line)
+                    if m:
+                        cur_fn = m.group(1)
+                    m2 = re.search(r"macro_rules!\s+(\w+)", line)
+                    if m2:
+                        cur_fn = "macro " + m2.group(1)
+                    for k in PANIC_RE.finditer(line):
+                        kind = k.group(0).strip(".(")
+                        text = " ".join(line.split())
+                        key = "%s|%s|%s|%s" % (rel, cur_fn, kind, text)
+                        counts[key] = counts.get(key, 0) + 1
+                        h = 0xcbf29ce484222325
+                        for b in ("%s|%d" % (key, counts[key])).encode():
+                            h = ((h ^ b) * 0x100000001b3) & 0xffffffffffffffff
+                        out.append((rel, cur_fn, kind, text, h))
+    return out
+
+
+def frag_panic_sites(R):
+    def f(repo, used):
+        sites = panic_sites(R, repo, used)
+        if len(sites) < 20:
+            raise R.Skip("panic sites: too few found, scanner broken?")
+        lines = ["From Coq Require Import List NArith.\nImport ListNotations.\n",
+                 "(* every unwrap/expect/panic!/unreachable!/todo!/assert! in the non-test code of slicec and slice-codec, identified by a hash of",
+                 "   (file, enclosing function, kind, the line's text, occurrence) so that moving code does not change it but editing it does *)",
+                 "Definition panic_sites : list N :=\n  [" + ";\n   ".join("%d%%N (* %s :: %s :: %s *)" % (h, rel, fn, text.replace("*)", "* )").replace("(*", "( *")[:110]) for rel, fn, kind, text, h in sites) + "]."]
+        return "\n".join(lines) + "\n", "slicec/src/**/*.rs, slice-codec/src/**/*.rs (non-test code)"
+    return f
+
+
 def register_all(R):
     R.FRAGMENTS["NumericBounds"] = frag_numeric_bounds(R)
     R.FRAGMENTS["Keywords"] = frag_keywords(R)
+    R.FRAGMENTS["PanicSites"] = frag_panic_sites(R)
